@@ -13,14 +13,20 @@
     C04_areal_lower_bound_f32   instance: float,  every areal<nbits,es,bt> with es ≤ 7 and fbits ≤ 23
     C04_areal_specials          the special encodings written out (every configuration)
     C04_areal_cfg_*             finite regression anchors by kernel evaluation (not the property)
+    C04_areal_roundtrip_f64     the round-trip half for double: for every areal<nbits,es,bt> with es ≤ 7, fbits ≤ 50, nbits ≤ 64 and
+                                every encoding that is not an inf / NaN pattern: areal(to_native(b)) = b with the ubit cleared
+                                (through C18_encloses_outside_D13_f64 and the uniqueness of the enclosing encoding)
+    C04_areal_roundtrip_inf_qnan  ±inf and the quiet-NaN encoding round-trip (every configuration)
+    C04_areal_roundtrip_snan_counterexample   the signalling-NaN encoding does NOT round-trip (D13, known finding)
   Not proved
-    the round-trip half "areal(to_native(b)) = b with the ubit cleared": checked on every explored encoding by the driver
-    (`tod` / `tof` lines carry the converted-back encoding); it is FALSE for the signalling-NaN encoding (D13, known finding).
+    the float round trip (same argument with the float instance of the region lemma; checked per `tof` line by the driver).
   es ≥ 8 is outside: `1ull << -exponent` has a shift count ≥ 64 there (undefined behaviour, D13) — never executed.
 -/
 import UVerif.Spec.Areal
 import UVerif.Model.Areal
 import UVerifProofs.Lemmas.ArealNative
+import UVerifProofs.Lemmas.ArealOrder
+import UVerifProofs.Lemmas.ArealRoundTrip
 
 set_option linter.unusedSimpArgs false
 set_option linter.unusedVariables false
@@ -193,6 +199,166 @@ theorem C04_areal_lower_bound_f32 (c : Model.Cfg) (hes : 1 ≤ c.es) (hes7 : c.e
       rw [this]; omega
     · decide
   exact C04_areal_lower_bound c f32 hfit (by decide) hes hn b hb
+
+/-- C04, areal clause, round trip through `double`: for every areal<nbits,es,bt> with es ≤ 7, fbits ≤ 50 and every encoding
+    that is not an inf / NaN pattern, converting `to_native<double>()` back gives the encoding with the ubit cleared
+    (the lower bound of the interval is an exact areal value and is recovered exactly). -/
+theorem C04_areal_roundtrip_f64 (c : Model.Cfg) (hes : 1 ≤ c.es) (hes7 : c.es ≤ 7) (hn : c.es + 3 ≤ c.nbits)
+    (hw : 1 ≤ c.w) (hW : c.nbits ≤ 64) (hst : c.nrBlocks = 1 ∨ c.nrBlocks ≤ 65 / c.w) (hsr : c.fbits + 1 < 52)
+    (b : Nat) (hb : b < 2 ^ c.nbits)
+    (hnan : b % 2 ^ (c.nbits - 1) ≠ 2 ^ (c.nbits - 1) - 1) (hinf : b % 2 ^ (c.nbits - 1) ≠ 2 ^ (c.nbits - 1) - 2) :
+    Model.assignF64 c (Model.toNative c f64 b) = b - b % 2 := by
+  let sc : Cfg := specCfg c
+  obtain ⟨hF1, hN1, hN, hM, hNN⟩ := size_facts sc hes hn
+  have hnb : sc.nbits = c.nbits := rfl
+  have hFF : sc.fbits = c.fbits := rfl
+  rw [hnb] at hN hNN
+  obtain ⟨he, hfr, hdec⟩ := enc_decompose sc hes hn b hb
+  have hb2 : b % 2 = if b.testBit 0 then 1 else 0 := by
+    rw [Nat.testBit_zero]; rcases Nat.mod_two_eq_zero_or_one b with h | h <;> simp [h]
+  have hlow : b - b % 2 = (if b.testBit (c.nbits - 1) then 2 ^ (c.nbits - 1) else 0) +
+      (expOf sc b * 2 ^ (sc.fbits + 1) + 2 * fracOf sc b) + (if false then 1 else 0) := by
+    rw [hb2]; simp only [Bool.false_eq_true, if_false, Nat.add_zero]
+    rw [hnb] at hdec; omega
+  -- magnitude in terms of the fields, and (e, f) is not the all-ones pair
+  have hT : (expOf sc b + 1) * 2 ^ (sc.fbits + 1) ≤ 2 ^ sc.es * 2 ^ (sc.fbits + 1) := Nat.mul_le_mul_right _ (by omega)
+  rw [Nat.add_mul, Nat.one_mul, ← hN] at hT
+  have hu : (if b.testBit 0 then 1 else 0 : Nat) ≤ 1 := by split <;> omega
+  have hmag : b % 2 ^ (c.nbits - 1) =
+      expOf sc b * 2 ^ (sc.fbits + 1) + 2 * fracOf sc b + (if b.testBit 0 then 1 else 0) := by
+    have hlt : expOf sc b * 2 ^ (sc.fbits + 1) + 2 * fracOf sc b + (if b.testBit 0 then 1 else 0) < 2 ^ (c.nbits - 1) := by
+      rw [hM] at hT ⊢; omega
+    conv_lhs => rw [hdec]
+    rw [hnb]
+    split
+    · rw [Nat.add_assoc, Nat.add_assoc, Nat.add_mod_left, ← Nat.add_assoc]; exact Nat.mod_eq_of_lt hlt
+    · rw [Nat.zero_add]; exact Nat.mod_eq_of_lt hlt
+  have hnotlast : ¬ (expOf sc b = 2 ^ sc.es - 1 ∧ fracOf sc b = 2 ^ sc.fbits - 1) := by
+    rintro ⟨h1, h2⟩
+    have hE2 : 1 ≤ 2 ^ sc.es := Nat.two_pow_pos _
+    have hQ2 : 1 ≤ 2 ^ sc.fbits := Nat.two_pow_pos _
+    have hval : expOf sc b * 2 ^ (sc.fbits + 1) + 2 * fracOf sc b = 2 ^ (c.nbits - 1) - 2 := by
+      rw [h1, h2, hN, hM]
+      have hk : (2 ^ sc.es - 1) * (2 * 2 ^ sc.fbits) + 2 * 2 ^ sc.fbits = 2 ^ sc.es * (2 * 2 ^ sc.fbits) := by
+        have : 2 ^ sc.es = (2 ^ sc.es - 1) + 1 := by omega
+        nth_rewrite 2 [this]; ring
+      generalize (2 ^ sc.es - 1) * (2 * 2 ^ sc.fbits) = X at *
+      generalize 2 ^ sc.es * (2 * 2 ^ sc.fbits) = Y at *
+      omega
+    rw [hval] at hmag
+    rcases Nat.lt_or_ge 0 (if b.testBit 0 then 1 else 0 : Nat) with h | h
+    · exact hnan (by omega)
+    · exact hinf (by omega)
+  -- the lower bound is enclosed by the ubit-free encoding
+  have henc2 := encloses_lattice sc hes hn (b.testBit (c.nbits - 1)) false he hfr hnotlast
+    (magVal sc (expOf sc b * 2 ^ (sc.fbits + 1) + 2 * fracOf sc b)) (fun _ => rfl) (by intro h; cases h)
+  rw [hnb] at henc2
+  rw [← hlow] at henc2
+  by_cases hzero : b % 2 ^ (c.nbits - 1) = 0
+  · -- ±0
+    have hd : Model.toNative c f64 b = (if b.testBit (c.nbits - 1) then 2 ^ (f64.ebits + f64.fbits) else 0) := by
+      unfold Model.toNative
+      simp only [hzero, beq_self_eq_true, if_true]
+    have hbz : b - b % 2 = (if b.testBit (c.nbits - 1) then 2 ^ (c.nbits - 1) else 0) := by
+      have he0 : expOf sc b * 2 ^ (sc.fbits + 1) + 2 * fracOf sc b = 0 := by omega
+      rw [hlow, he0]; simp
+    rw [hd, hbz]
+    cases b.testBit (c.nbits - 1)
+    · simp [Model.assignF64]
+    · have e1 : (2 ^ (f64.ebits + f64.fbits) >>> 52) % 2048 = 0 := by decide
+      have e2 : 2 ^ (f64.ebits + f64.fbits) % 2 ^ 52 = 0 := by decide
+      have e3 : (2 ^ (f64.ebits + f64.fbits)).testBit 63 = true := by decide
+      have e2' : 2 ^ (f64.ebits + f64.fbits) % 4503599627370496 = 0 := by decide
+      simp only [if_true]
+      unfold Model.assignF64 Model.signBit
+      simp [e1, e2, e2', e3]
+  · obtain ⟨t1, t2, t3⟩ := toNative_finite c f64
+      (nativeFits_of_small_es c f64 hes hes7 (by decide) (by have : f64.fbits = 52 := rfl; omega) (by decide)
+        (by have : eMin f64 = -1074 := by decide
+            rw [this]; omega) (by decide))
+      hes hn b hb hzero hnan hinf
+    have hreg := region_false_of_value c (Model.toNative c f64 b) (expOf sc b) (fracOf sc b) hes hes7 hn hsr he
+      (by rw [← hFF]; exact hfr) (by rw [← hFF]; exact hnotlast) t1 t3
+    have henc1 := C18_encloses_outside_D13_f64 c (Model.toNative c f64 b) hes hn hw hW hst hsr hreg
+    -- the source value of d is the lattice value with the sign of b
+    obtain ⟨g1, g2, g3⟩ := f64_fields (Model.toNative c f64 b)
+    have hsrc : srcOfF64 (Model.toNative c f64 b) =
+        .fin (b.testBit (c.nbits - 1)) (magVal sc (expOf sc b * 2 ^ (sc.fbits + 1) + 2 * fracOf sc b)) := by
+      unfold srcOfF64
+      have hne : ¬ ((Model.toNative c f64 b >>> 52) % 2048 = 2047) := by
+        rw [g1]
+        unfold IeeeBits.isFinite at t1
+        have : (f64.eAll : Nat) = 2047 := by decide
+        rw [← this]; simpa using t1
+      simp only [hne, if_false]
+      rw [g3, t2, magVal_fields sc he hfr]
+      congr 1
+    rw [hsrc] at henc1
+    exact encloses_unique sc hes hn _ _ _ _ henc1 henc2
+
+/-- round trip of the inf patterns and of the quiet-NaN encoding (every configuration) -/
+theorem C04_areal_roundtrip_inf_qnan (c : Model.Cfg) (hn : 4 ≤ c.nbits) (s : Bool) :
+    Model.assignF64 c (Model.toNative c f64 (Model.setinf c s)) = Model.setinf c s ∧
+    Model.assignF64 c (Model.toNative c f64 (Model.setnanQuiet c)) = Model.setnanQuiet c := by
+  have h4 : 4 ≤ 2 ^ (c.nbits - 1) := by
+    calc 4 = 2 ^ 2 := rfl
+      _ ≤ 2 ^ (c.nbits - 1) := Nat.pow_le_pow_right (by omega) (by omega)
+  have hN : 2 ^ c.nbits = 2 * 2 ^ (c.nbits - 1) := by
+    rw [show c.nbits = (c.nbits - 1) + 1 by omega, Nat.pow_succ]; simp; ring
+  have tb : ∀ y, y < 2 ^ (c.nbits - 1) → (2 ^ (c.nbits - 1) + y).testBit (c.nbits - 1) = true := by
+    intro y hy; rw [Nat.testBit_two_pow_add_eq, Nat.testBit_lt_two_pow hy]; rfl
+  have tb0 : ∀ y, y < 2 ^ (c.nbits - 1) → y.testBit (c.nbits - 1) = false := fun y hy => Nat.testBit_lt_two_pow hy
+  have md : ∀ y, y < 2 ^ (c.nbits - 1) → (2 ^ (c.nbits - 1) + y) % 2 ^ (c.nbits - 1) = y := by
+    intro y hy; rw [Nat.add_mod_left]; exact Nat.mod_eq_of_lt hy
+  have i1 : Model.assignF64 c (IeeeBits.infBits f64 false) = Model.setinf c false := by
+    unfold Model.assignF64
+    have e1 : (IeeeBits.infBits f64 false >>> 52) % 2048 = 2047 := by decide
+    have e2 : IeeeBits.infBits f64 false % 2 ^ 52 = 0 := by decide
+    have e3 : (IeeeBits.infBits f64 false).testBit 63 = false := by decide
+    have e2' : IeeeBits.infBits f64 false % 4503599627370496 = 0 := by decide
+    simp [e1, e2, e2', e3]
+  have i2 : Model.assignF64 c (IeeeBits.infBits f64 true) = Model.setinf c true := by
+    unfold Model.assignF64
+    have e1 : (IeeeBits.infBits f64 true >>> 52) % 2048 = 2047 := by decide
+    have e2 : IeeeBits.infBits f64 true % 2 ^ 52 = 0 := by decide
+    have e3 : (IeeeBits.infBits f64 true).testBit 63 = true := by decide
+    have e2' : IeeeBits.infBits f64 true % 4503599627370496 = 0 := by decide
+    simp [e1, e2, e2', e3]
+  have i3 : Model.assignF64 c (f64.eAll * 2 ^ f64.fbits + 2 ^ (f64.fbits - 1)) = Model.setnanQuiet c := by
+    unfold Model.assignF64
+    have e1 : ((f64.eAll * 2 ^ f64.fbits + 2 ^ (f64.fbits - 1)) >>> 52) % 2048 = 2047 := by decide
+    have e2 : (f64.eAll * 2 ^ f64.fbits + 2 ^ (f64.fbits - 1)) % 2 ^ 52 = 0x8000000000000 := by decide
+    have e2' : (f64.eAll * 2 ^ f64.fbits + 2 ^ (f64.fbits - 1)) % 4503599627370496 = 2251799813685248 := by decide
+    simp [e1, e2, e2']
+  constructor
+  · cases s
+    · have hd : Model.toNative c f64 (Model.setinf c false) = IeeeBits.infBits f64 false := by
+        unfold Model.toNative Model.setinf
+        have h1 : (2 ^ (c.nbits - 1) - 2) % 2 ^ (c.nbits - 1) = 2 ^ (c.nbits - 1) - 2 := Nat.mod_eq_of_lt (by omega)
+        have h2 := tb0 (2 ^ (c.nbits - 1) - 2) (by omega)
+        simp [h1, h2, show ¬ (2 ^ (c.nbits - 1) - 2 = 0) by omega,
+          show ¬ (2 ^ (c.nbits - 1) - 2 = 2 ^ (c.nbits - 1) - 1) by omega]
+      rw [hd, i1]
+    · have hd : Model.toNative c f64 (Model.setinf c true) = IeeeBits.infBits f64 true := by
+        unfold Model.toNative Model.setinf
+        have hv : 2 ^ c.nbits - 2 = 2 ^ (c.nbits - 1) + (2 ^ (c.nbits - 1) - 2) := by omega
+        have h1 := md (2 ^ (c.nbits - 1) - 2) (by omega)
+        have h2 := tb (2 ^ (c.nbits - 1) - 2) (by omega)
+        simp only [if_true, hv, h1, h2]
+        simp [show ¬ (2 ^ (c.nbits - 1) - 2 = 0) by omega,
+          show ¬ (2 ^ (c.nbits - 1) - 2 = 2 ^ (c.nbits - 1) - 1) by omega]
+      rw [hd, i2]
+  · have hd : Model.toNative c f64 (Model.setnanQuiet c) = f64.eAll * 2 ^ f64.fbits + 2 ^ (f64.fbits - 1) := by
+      unfold Model.toNative Model.setnanQuiet
+      have h1 : (2 ^ (c.nbits - 1) - 1) % 2 ^ (c.nbits - 1) = 2 ^ (c.nbits - 1) - 1 := Nat.mod_eq_of_lt (by omega)
+      have h2 := tb0 (2 ^ (c.nbits - 1) - 1) (by omega)
+      simp [h1, h2, show ¬ (2 ^ (c.nbits - 1) - 1 = 0) by omega]
+    rw [hd, i3]
+
+/-- the round trip FAILS for the signalling-NaN encoding (D13): `to_native` returns numeric_limits::signaling_NaN(), whose
+    payload `operator=(double)` does not recognise; witness areal<6,2,uint8_t>, encoding 0b111111 ↦ 0b011101 -/
+theorem C04_areal_roundtrip_snan_counterexample :
+    Model.assignF64 ⟨6, 2, 8⟩ (Model.toNative ⟨6, 2, 8⟩ f64 0x3f) = 0x1d := by decide +kernel
 
 /-- special encodings, every configuration and both native types: ±0 keep their sign, ±inf, NaN -/
 theorem C04_areal_specials (c : Model.Cfg) (f : Fmt) (hn : 4 ≤ c.nbits) (s : Bool) :
